@@ -131,7 +131,9 @@ def make_machine(ctx):
         @initialize(key=any_key(), how=st.sampled_from(["jwk", "pem", "generate-auto", "jwk-kid", "params-kid", "public", "jwk-empty-kid"]))
         def setup(self, key, how):
             from joserfc.jwk import OctKey, RSAKey, ECKey, OKPKey
-            cls = {"oct": OctKey, "RSA": RSAKey, "EC": ECKey, "OKP": OKPKey}[key["kty"]]
+            base = {"oct": OctKey, "RSA": RSAKey, "EC": ECKey, "OKP": OKPKey}[key["kty"]]
+            cls = self.cls = type("Hist" + base.__name__, (base,), {})   # own subclass: its digest selection touches nothing else
+            self.digest = "sha256"
             self.ref = key
             self.how = how
             jwk = rk.export_jwk(key)
@@ -160,7 +162,13 @@ def make_machine(ctx):
 
         def _assigned(self):
             if self.expected_kid == "unset":
-                self.expected_kid = rk.thumbprint(self.ref)
+                self.expected_kid = rk.thumbprint(self.ref, self.digest)
+
+        @rule(m=st.sampled_from(["sha256", "sha384", "sha512"]))
+        def select_digest(self, m):
+            self.cls.thumbprint_digest_method = m
+            self.digest = m
+            self.log.append(f"digest:{m}")
 
         @rule()
         def ensure_kid(self):
@@ -184,6 +192,8 @@ def make_machine(ctx):
             self.log.append(f"as_dict(private={private},kid={override},edit={edit})")
             if override and d.get("kid") != override:
                 self._bad("export-override-ignored", f"as_dict(kid={override!r}) returned kid {d.get('kid')!r}")
+            if not override and self.expected_kid != "unset" and d.get("kid") != self.expected_kid:
+                self._bad("export-lacks-assigned-kid", f"as_dict(private={private}) carries kid {d.get('kid')!r} although the key's kid is {self.expected_kid!r}")
             if edit:
                 d["kid"] = "edited-by-caller"
                 d["x-extra"] = 1
@@ -194,14 +204,17 @@ def make_machine(ctx):
             ks = KeySet([self.key])
             self._assigned()
             d = ks.as_dict(private=False, kid="set-level-override") if self.ref["kty"] != "oct" else ks.as_dict()
+            d2 = ks.as_dict(private=False) if self.ref["kty"] != "oct" else ks.as_dict()
             self.log.append("KeySet.as_dict")
+            if d2["keys"][0].get("kid") != self.expected_kid:
+                self._bad("keyset-export-kid-differs", f"KeySet.as_dict lists kid {d2['keys'][0].get('kid')!r}, the key's kid is {self.expected_kid!r}")
 
         @rule()
         def thumb(self):
             t = self.key.thumbprint()
             self.log.append("thumbprint")
-            if t != rk.thumbprint(self.ref):
-                self._bad("thumbprint-changed", f"thumbprint() = {t!r}, RFC 7638 value {rk.thumbprint(self.ref)!r}")
+            if t != rk.thumbprint(self.ref, self.digest):
+                self._bad("thumbprint-changed", f"thumbprint() = {t!r}, RFC 7638 ({self.digest}) value {rk.thumbprint(self.ref, self.digest)!r}")
 
         @rule()
         def read_kid(self):
@@ -227,7 +240,7 @@ def make_machine(ctx):
             if self.expected_kid == "unset":
                 if got is not None:
                     # a kid appeared although nothing assigned one: must then be the thumbprint
-                    if got != rk.thumbprint(self.ref):
+                    if got != rk.thumbprint(self.ref, self.digest):
                         self._bad("spurious-kid", f"kid {got!r} appeared")
                     self.expected_kid = got
             elif got != self.expected_kid:
@@ -240,7 +253,9 @@ def replay_history(rec) -> dict:
     """Deterministic re-execution of a recorded history."""
     from joserfc.jwk import OctKey, RSAKey, ECKey, OKPKey, KeySet
     ref = gk.key_from_record(rec["key"])
-    cls = {"oct": OctKey, "RSA": RSAKey, "EC": ECKey, "OKP": OKPKey}[ref["kty"]]
+    base = {"oct": OctKey, "RSA": RSAKey, "EC": ECKey, "OKP": OKPKey}[ref["kty"]]
+    cls = type("Hist" + base.__name__, (base,), {})
+    digest = "sha256"
     jwk = rk.export_jwk(ref)
     how = rec["how"]
     expected = "unset"
@@ -262,7 +277,11 @@ def replay_history(rec) -> dict:
     f = {}
     tp = rk.thumbprint(ref)
     for step in rec["history"][1:]:
-        if step == "ensure_kid":
+        if step.startswith("digest:"):
+            digest = step.split(":")[1]
+            cls.thumbprint_digest_method = digest
+            tp = rk.thumbprint(ref, digest)
+        elif step == "ensure_kid":
             key.ensure_kid()
             expected = tp if expected == "unset" else expected
         elif step in ("KeySet", "KeySet.as_dict"):
@@ -270,10 +289,15 @@ def replay_history(rec) -> dict:
             expected = tp if expected == "unset" else expected
             if step == "KeySet.as_dict":
                 ks.as_dict(private=False, kid="set-level-override") if ref["kty"] != "oct" else ks.as_dict()
+                d2 = ks.as_dict(private=False) if ref["kty"] != "oct" else ks.as_dict()
+                if d2["keys"][0].get("kid") != expected:
+                    f["C13:history:keyset-export-kid-differs"] = f"KeySet.as_dict lists kid {d2['keys'][0].get('kid')!r}, expected {expected!r}"
         elif step.startswith("as_dict("):
             private = None if "private=None" in step else False
             override = "override-kid" if "kid=override-kid" in step else None
             d = key.as_dict(private=private, **({"kid": override} if override else {}))
+            if not override and expected != "unset" and d.get("kid") != expected:
+                f["C13:history:export-lacks-assigned-kid"] = f"as_dict carries kid {d.get('kid')!r}, the key's kid is {expected!r}"
             if "edit=True" in step:
                 d["kid"] = "edited-by-caller"
         elif step == "thumbprint":
